@@ -109,11 +109,14 @@ CHECKS = {
     'C09': dict(
         technique='TLA+ spec Experiment.tla model-checked by TLC (crash at every control state, liveness); real '
                   'run_federated_experiment explored breadth-first over crash-reachable directory states with an '
-                  'in-process fault interposer, every incarnation validated as a trace by TLC (ExperimentTrace.tla)',
+                  'in-process fault interposer, every incarnation validated as a trace by TLC (ExperimentTrace.tla); crash '
+                  'schedules generated by TLC (ExperimentGen.tla, named spec crash points) realised on the real code',
         text='TLC exhausts the crash/restart design for a grid of configurations and proves the C09 invariants and '
              'termination on it; every execution of the real code under every single crash point (and mid-write '
              'prefixes), from every directory state reachable by up to 2 (quick) / 3 (thorough) successive crashes, is '
-             'accepted by the specification with all invariants evaluated after every file-system effect.',
+             'accepted by the specification with all invariants evaluated after every file-system effect; conversely every '
+             'crash schedule TLC generates for small configurations (named control states, up to 2 crashes) is driven '
+             'into the real code and the directory after each crash and the final result are compared.',
         note='In-process crash simulation (BaseException at effect boundaries; written data assumed on disk); '
              'TensorBoard summaries stubbed; harness-supplied deterministic algorithm/eval fns; TLC, JVM.',
         design='5/C09'),
